@@ -174,6 +174,15 @@ pub fn stress_sources() -> Vec<(String, String)> {
         "readme-objects".into(),
         "let point = object\nbegin\n  let x = 0;\n  let y = 1;\n  let z = 2;\n  function print() ->\n  begin\n    print(\"x=~, y=~, z=~\\n\", this.x, this.y, this.z);\n  end\nend;\npoint.print();\nprint(\"x=~, y=~, z=~\\n\", point.x, point.y, point.z);\nfunction new(x) ->\n  object\n  begin\n    let inner = x;\n    function + (operand) -> this.inner + operand.inner\n  end;\nlet x = new(1);\nlet y = new(2);\nlet r = x + y;\nprint(\"~\\n\", r);\nlet r2 = x.+(y);\nprint(\"~\\n\", r2);\nlet pseudo_one = object extends 1 begin end;\nlet pseudo_two = object extends 2 begin end;\nprint(\"~\\n\", pseudo_one + 2);\nprint(\"~\\n\", pseudo_two + 1);\nfunction immutable_array(len, value) ->\n    object extends array(len, value)\n    begin\n      function set(index, value) ->\n        print(\"Cannot set value: immutable array\\n\");\n    end;\nlet arr = immutable_array(10, 42);\narr[0] <- 6;\nprint(\"~\\n\", arr);\nfunction math_array(len, value) ->\n    object extends array(len, value)\n    begin\n      let length = len;\n      function + (value) ->\n      begin\n        let i = 0;\n        let result = array(this.length, null);\n        while i < this.length do\n        begin\n          result[i] <- this[i] + value;\n          i <- i + 1;\n        end;\n        result\n      end\n    end;\nlet arr1 = math_array(10, 5);\nlet arr2 = arr1 + 1;\narr2[0] <- 7;\nprint(\"~\\n\", arr2);\nlet a = array(3, null);\nlet b = a;\nb[1] <- 42;\nprint(\"~ ~\\n\", a, b);\nprint(\"~\\n\", pseudo_one + pseudo_two);\n".into(),
     ));
+    // values that contain themselves, printed in the middle of a format after other output
+    v.push((
+        "cyclic-print-mid-format".into(),
+        "let a = array(2, 0);\na[1] <- a;\nprint(\"before\\n\");\nprint(\"x ~ y ~ z\\n\", 1, a);\nprint(\"after\\n\");\n".into(),
+    ));
+    v.push((
+        "cyclic-print-object-parent".into(),
+        "let box = array(1, null);\nlet o = object extends box begin let v = 1; let self = null; end;\no.self <- o;\nprint(\"start;\");\nprint(\"[~|~|~]\", o.v, 2, o);\nprint(\"unreached?\");\n".into(),
+    ));
     // several zero-length arrays and empty objects
     v.push(("empty-allocations".into(), "let k = 0; while k < 3 do begin array(0, k); array(0, begin k end); object begin end; k <- k + 1 end;\nprint(\"~ ~ ~\\n\", array(0, 1), array(0, begin 2 end), object begin end);\n".into()));
     // user-defined methods that carry the Feeny names of built-ins
